@@ -67,7 +67,13 @@ def eyring_equation(dH, dS, T, constants=None, units=None, backend=None):
     except AttributeError:
         pass
 
-    return kB_over_h * T * be.exp(dS / R) * be.exp(-dH / RT)
+    dS_over_R = dS / R
+    try:
+        dS_over_R = dS_over_R.simplified
+    except AttributeError:
+        pass
+
+    return kB_over_h * T * be.exp(dS_over_R) * be.exp(-dH / RT)
 
 
 def fit_eyring_equation(T, k, kerr=None, linearized=False, constants=None, units=None):
